@@ -501,8 +501,8 @@ func histText(steps []hstep, obs []hobs) string {
 
 func genC14(ctx *fw.Ctx) []fw.Case {
 	var cases []fw.Case
-	nShort := ctx.Pick(40, 600)
-	nLong := ctx.Pick(120, 4000)
+	nShort := ctx.Pick(300, 5000)
+	nLong := ctx.Pick(1500, 40000)
 	for i := 0; i < nShort; i++ {
 		i := i
 		cases = append(cases, fw.Case{ID: fmt.Sprintf("short/%d", i), Run: func(r *fw.Rec) { c14Short(r, i) }})
@@ -541,7 +541,11 @@ func c14Judge(r *fw.Rec, tag string, steps []hstep, obs []hobs, ref string) bool
 		for _, o := range obs {
 			kinds = append(kinds, obsNames[o.Kind])
 		}
-		r.Violate(fw.Violation{Key: "history-differs/" + tag + "/" + strings.Join(kinds, "+"), Input: histText(steps, obs),
+		kk := strings.Join(kinds, "+")
+		if len(kinds) > 3 {
+			kk = fmt.Sprintf("%d-observers", len(kinds))
+		}
+		r.Violate(fw.Violation{Key: "history-differs/" + tag + "/" + kk, Input: histText(steps, obs),
 			What: "final printed module differs from the same history without observers: " + firstDiffLines(ref, got), Expected: ref, Observed: got})
 		return false
 	}
